@@ -4481,7 +4481,13 @@ impl Database {
                 self.execute_delete(delete, params.unwrap_or(&[]), arena)
             }
             Statement::Select(_) => {
-                let (columns, rows) = self.query_with_columns(sql)?;
+                let (columns, rows) = match params {
+                    Some(bound) if !bound.is_empty() => {
+                        let inlined = super::prepared::substitute_parameters(sql, bound)?;
+                        self.query_with_columns(&inlined)?
+                    }
+                    _ => self.query_with_columns(sql)?,
+                };
                 Ok(ExecuteResult::Select { columns, rows })
             }
             Statement::Drop(drop) => {
